@@ -123,6 +123,16 @@ def get_double(node):
         s = cstr(p)
         m = DBL_RE.fullmatch(s)
         if not m:
+            # "parsed as a double" is strtod: it also reads inf / infinity / nan[(chars)] in any case, and hexadecimal floats
+            t = s.lstrip(C_SPACE)
+            neg = t[:1] == b"-"
+            body = t[1:].lower() if t[:1] in (b"+", b"-") else t.lower()
+            if body in (b"inf", b"infinity"):
+                return [-math.inf if neg else math.inf], {0}
+            if body == b"nan" or re.fullmatch(rb"nan\([0-9a-z_]*\)", body):
+                return [math.nan], {0}
+            if body[:2] == b"0x":
+                return None, ANY  # hexadecimal floats: libc's business, not asserted
             return [0.0], {EINVAL}
         f = float(s.strip(C_SPACE))
         if math.isinf(f):
